@@ -523,7 +523,8 @@ struct WorldA {
 
 static WorldA *g_A = nullptr;
 static int g_depth = 0, g_max_depth = 2;       // nesting of command handlers that act on their own session
-struct Act { char kind; std::string data; };   // 's' send text, 'f' feed bytes to the own session, 'e' end the session, 'd' delete it
+struct Act { char kind; std::string data; size_t a = 0, b = 0; };   // 's' send text, 'f' feed bytes to the own session, 'e' end the session, 'd' delete it,
+                                                // 'r' deleteNode(nodes[a]), 'm' mountNode(nodes[a], nodes[b], data), 'u' umountNode(nodes[a], data)
 // keep fd 0 and fd 1 occupied (by /dev/null) whenever the stdio service does not own them, so that pipe()
 // never hands them out
 static void park_std_fds() {
@@ -676,10 +677,21 @@ static bool parse_script(const std::vector<std::string> &w, std::vector<Act> &ou
     for (size_t k = 1; k < w.size(); ++k) {
         const std::string &t = w[k];
         std::vector<uint8_t> d;
-        if (t == "e") { out.push_back(Act{'e', ""}); continue; }
-        if (t == "d") { out.push_back(Act{'d', ""}); continue; }
+        if (t == "e") { Act x; x.kind = 'e'; out.push_back(x); continue; }
+        if (t == "d") { Act x; x.kind = 'd'; out.push_back(x); continue; }
+        if (t.size() >= 3 && t[1] == ':' && (t[0] == 'r' || t[0] == 'm' || t[0] == 'u')) {
+            // r:<i> | m:<p>:<c>:<hex> | u:<p>:<hex>   (node indices are looked up when the handler runs)
+            std::vector<std::string> f; size_t pos = 2;
+            while (true) { size_t e = t.find(':', pos); if (e == std::string::npos) { f.push_back(t.substr(pos)); break; } f.push_back(t.substr(pos, e - pos)); pos = e + 1; }
+            Act x; x.kind = t[0]; uint64_t v = 0, v2 = 0;
+            if (t[0] == 'r' && f.size() == 1 && vh::to_u64(f[0], v)) { x.a = v; }
+            else if (t[0] == 'm' && f.size() == 3 && vh::to_u64(f[0], v) && vh::to_u64(f[1], v2) && vh::unhex(f[2], d)) { x.a = v; x.b = v2; x.data.assign(d.begin(), d.end()); }
+            else if (t[0] == 'u' && f.size() == 2 && vh::to_u64(f[0], v) && vh::unhex(f[1], d)) { x.a = v; x.data.assign(d.begin(), d.end()); }
+            else return false;
+            out.push_back(x); continue;
+        }
         if (t.size() < 3 || t[1] != ':' || (t[0] != 's' && t[0] != 'f') || !vh::unhex(t.substr(2), d)) return false;
-        out.push_back(Act{t[0], std::string(d.begin(), d.end())});
+        { Act x; x.kind = t[0]; x.data.assign(d.begin(), d.end()); out.push_back(x); }
     }
     return true;
 }
@@ -887,6 +899,14 @@ int main(int argc, char **argv) {
                                 // the Terminal (a host-written Connection knows its tokens)
                                 if (slot == 7 && g_A->stdio && g_A->stdio_state == 1) { g_A->stdio->stop(); g_A->stdio_state = 3; }
                                 else g_A->term->deleteSession(s.st_);
+                            } else if (act.kind == 'r') {
+                                // the node tree changes under the command line that is being executed
+                                if (act.a < g_A->nodes.size()) g_A->term->deleteNode(g_A->nodes[act.a]);
+                            } else if (act.kind == 'm') {
+                                if (act.a < g_A->nodes.size() && act.b < g_A->nodes.size())
+                                    g_A->term->mountNode(g_A->nodes[act.a], g_A->nodes[act.b], act.data);
+                            } else if (act.kind == 'u') {
+                                if (act.a < g_A->nodes.size()) g_A->term->umountNode(g_A->nodes[act.a], act.data);
                             } else {
                                 g_A->drain_stdout();
                                 s.endSession();
@@ -902,7 +922,7 @@ int main(int argc, char **argv) {
             ev(ret(A->term->mountNode(A->nodes[i], A->nodes[j], std::string(d.begin(), d.end()))));
         } else if (op == "umount" && w.size() == 3 && idx(w[1], A->nodes.size(), i) && vh::unhex(w[2], d)) {
             ev(ret(A->term->umountNode(A->nodes[i], std::string(d.begin(), d.end()))));
-        } else if (op == "rmnode" && w.size() == 2 && idx(w[1], A->nodes.size(), i) && i != 0) {
+        } else if (op == "rmnode" && w.size() == 2 && idx(w[1], A->nodes.size(), i)) {
             ev(ret(A->term->deleteNode(A->nodes[i])));
         } else if (op == "split" && w.size() == 2 && vh::unhex(w[1], d)) {
             std::vector<std::string> args;
